@@ -6,7 +6,7 @@ spec/ContainersTrace.tla  verdicts on observed filter / group / entry operations
 from .. import core
 
 CONSTS = {"MaxLen": 1, "Shapes": {"a1"}, "Fault": "none", "EmitCases": False}
-ALL_SHAPES = ["a1", "a1again", "a2", "a3", "b1", "c1", "eT", "eS", "uS", "uTeS", "eAll", "p0a", "p0b"]
+ALL_SHAPES = ["a1", "a1again", "a2", "a3", "b1", "c1", "eT", "eS", "uS", "uTeS", "eAll", "p0a", "p0b", "z0"]
 SHAPE = {
     "a1": dict(inst=1, tk="num", rk="num", sk="num", trs=1, parsed=True, lq=1, pp=1, g1="x", g2="p"),
     "a1again": dict(inst=1, tk="num", rk="num", sk="num", trs=1, parsed=True, lq=1, pp=1, g1="x", g2="p"),
@@ -16,6 +16,7 @@ SHAPE = {
     "c1": dict(inst=5, tk="num", rk="num", sk="num", trs=3, parsed=True, lq=2, pp=3, g1="y", g2="p"),
     "p0a": dict(inst=11, tk="num", rk="num", sk="num", trs=1, parsed=True, lq=3, pp=4, g1="x", g2="p"),
     "p0b": dict(inst=12, tk="num", rk="num", sk="num", trs=1, parsed=True, lq=3, pp=5, g1="x", g2="p"),
+    "z0": dict(inst=13, tk="num", rk="num", sk="num", trs=9, parsed=True, lq=1, pp=1, g1="v", g2="t"),
     "eT": dict(inst=6, tk="err", rk="num", sk="num", trs=4, parsed=False, lq=0, pp=1, g1="z", g2="p"),
     "eS": dict(inst=7, tk="num", rk="num", sk="err", trs=5, parsed=True, lq=1, pp=1, g1="x", g2="r"),
     "uS": dict(inst=8, tk="num", rk="num", sk="undef", trs=6, parsed=False, lq=0, pp=1, g1="x", g2="s"),
@@ -76,7 +77,7 @@ def check(ctx, cases):
 def run(ctx):
     thorough = ctx.tier == "thorough"
     invs = ["InOrder", "Partition", "NoDropKeepsAll", "ScanEqualsDenotation", "ErrorsCriterion"]
-    shapes = {"a1", "a1again", "a2", "a3", "b1", "eT", "uS", "uTeS", "p0a", "p0b"}
+    shapes = {"a1", "a1again", "a2", "a3", "b1", "eT", "uS", "uTeS", "p0a", "p0b", "z0"}
     ctx.tlc("Containers", {"MaxLen": 3, "Shapes": shapes, "Fault": "none", "EmitCases": False}, invariants=invs)
     ctx.tlc("Containers", {"MaxLen": 2, "Shapes": {"a1", "a2", "eT"}, "Fault": "none", "EmitCases": False}, invariants=invs,
             coverage=True, count=False)
@@ -151,7 +152,7 @@ def run(ctx):
                                            ["nested_iter", "generator"] if path == "from_multiple" else []))}})
                 k += 1
     check(ctx, cases)
-    ctx.rule = ("filter cases = every (list up to %d elements over 8 shapes incl. repeated instances, equal TRS, error / undefined "
+    ctx.rule = ("filter cases = every (list up to %d elements over 11 shapes incl. numbers 0, repeated instances, equal TRS, error / undefined "
                 "components, parsed / unparsed) x (4 predicates, 16 filter_errors flag sets, 4 duplicate methods) x drop of "
                 "spec/Containers.tla, on TractList / TRSList / PLSSDesc wrappers; + random lists of 2..8 elements for filters, "
                 "group_by / group_by_nested (1..3 attributes) + unpack_group; entry paths: 8 paths x 2 containers x 11 element "
